@@ -111,7 +111,7 @@ PROPS = {
         title="outcome independent of completion order",
         theorems={NEXT: ["C01_offer_from_staged", "C08_offers_sorted"], JOIN: ["C19_inbound_status_perm"], MERGEORDER: ["C08_single_writer_order_free", "C08_context_order_free", "C08_same_writer_order_free", "C08_context_order_free_shared"]},
         keys=["status", "sequence", "contexts", "output"], offers="ids",
-        prof=dict(p_loop=0.0, p_retry=0.0, p_items=0.0, p_badexpr=0.0, p_template=0.4, templates=[4, 4, 0, 5, 6, 14, 14, 11], p_delay=0.3), hist=dict(fixed_outcomes=True, p_lifecycle=0.4, p_odd_terminal=0.0),
+        prof=dict(p_loop=0.0, p_retry=0.0, p_items=0.0, p_badexpr=0.0, p_template=0.4, templates=[4, 4, 0, 5, 6, 14, 14, 11, 17, 17], p_delay=0.3), hist=dict(fixed_outcomes=True, p_lifecycle=0.4, p_odd_terminal=0.0),
         monitor="C08", unproven=["order independence of whole runs (C08_routefree, C08_commute) is relational and not proved; search only. Proved for every state and every two orders of the same snapshots: the merged context agrees on each variable written by at most one of them, or by one snapshot listed several times (C08_context_order_free, C08_context_order_free_shared)"],
     ),
     "C09": dict(
